@@ -178,6 +178,7 @@ def composite_codec_encode_into_pdu(codec: CompositeCodec, physical_value: Optio
     # encode the length- and table keys. This cannot be done above
     # because we allow these to be defined implicitly (i.e. they
     # are defined by their respective users)
+    orig_cursor = encode_state.cursor_byte_position
     for param in codec.parameters:
         if not isinstance(param, (LengthKeyParameter, TableKeyParameter)):
             # the current parameter is neither a length- nor a table key
@@ -186,6 +187,9 @@ def composite_codec_encode_into_pdu(codec: CompositeCodec, physical_value: Optio
         # Encode the value of the key parameter into the message
         param.encode_value_into_pdu(encode_state=encode_state)
 
+    # the next object is located after the last parameter, not after
+    # the key which has been encoded last
+    encode_state.cursor_byte_position = orig_cursor
     encode_state.origin_byte_position = orig_origin
 
 
